@@ -411,8 +411,8 @@ func c04Frontier(c *core.Ctx) {
 
 func init() {
 	register(&Property{
-		ID:    "C04",
-		Level: "other",
+		ID:          "C04",
+		Level:       "other",
 		Explanation: "Decides the structural necessary conditions of 'a reorg leaves the node as if the dropped blocks had never been seen': C04-cascade — the final schema of each of the three stores is computed from the embedded migrations (files and order read from the Go AST; unlisted .sql files and unknown DDL fail) and every table other than block references block(num) ON DELETE CASCADE; tree root rows carry block_num and rht is content-addressed; C04-fk — the only sql.Open is db.NewSQLiteDB whose DSN enables foreign keys and every store handle comes from it; C04-trees — each Reorg binds `DELETE FROM block WHERE num >= $1` to firstReorgedBlock and rewinds every tree-typed field of its processor (computed from the struct type) with the same tx and argument on every committing path, and Tree.Reorg deletes root rows with block_num >= $1; C04-atomic — Reorg transaction pairing, every write through the tx, and a failed write/rewind step always ends the reorg with its error (lastgersync: single statement); C04-frontier — initCache rewrites both in-memory frontier fields from the last stored root on every successful return (with TX-mem's mismatch-rebuild obligation this forces a rebuild after leaves were removed; the index comparison itself is value-level). Observational equivalence of all queries for all histories and SQLite's cascade semantics are not decided. Added after round 7: C04-rewind (driver acknowledges only after Reorg()==nil and passes the notified block unchanged, shared with C06) and TX-err on the Reorg functions (a failed rewind step ends the reorg with its error).",
 		Rules: []Rule{
 			{ID: "C04-tree", Floor: 9, Run: func(c *core.Ctx) { storeRule(c, "C04-tree") }, Text: "(shared with C08-store) node storage tolerates rows left by a dropped fork without skipping the rest of the branch"},
